@@ -407,7 +407,8 @@ func TestVerifC02Server(t *testing.T) {
 					case x < 7 && fails < 4:
 						fails++
 						ok = c02ScPanic(c, lv.e, fresh, rt, c02GenPanic(r, false), r)
-					case x < 9:
+					case x < 9 && fails < 4:
+						fails++
 						ok = c02ScPanic(c, lv.e, fresh, rt, c02GenPanic(r, true), r)
 					default:
 						ok = c02ScFast(c, lv.e, fresh, rt, c02GenFast(r, false), "fast")
